@@ -139,7 +139,7 @@ func init() {
 			"internal markers are Add-ed before they are sent and Done exactly once where consumed (C01.marker-*); every partition set of a produce response is routed to exactly one disposition and the two retriable case lists agree (C01.route); " +
 			"retryMessage re-queues or fails, never both or neither, with the budget test guarding the increment (C01.retry); shutdown waits before closing (C01.shutdown); the sync producer stores the expectation before submitting and answers each event once on its own channel (C01.sync); after a transport failure both the failed request and the pending buffer are swept before the buffer is replaced (C01.error-sweep); a buffered message is eventually flushed: the flush timer is armed after every add that needs it and reset with every buffer replacement, the output is enabled exactly when a flush is due (C16.flush, shared — a message that is never flushed never gets its outcome). " +
 			"NOT covered: liveness of the retry loop across goroutines, value-dependent behaviour of markers whose budget is exhausted, the idempotent retryBatch hand-off to another broker worker.",
-		Rules: []func(*Ctx){c01Emit, c01Partial, c01Markers, c01Route, c01ErrorSweep, c01Retry, c01Shutdown, c01BrokerShutdown, c01Sync, c01Loops, c16Flush, c02Flush, c18ResetOnHandBack, c01ErrLost, c01CloseDrains, c02RetryLevelWidth, c04Aligned, c01AsyncCloseNonBlocking, c18RetryCountKept, c01ShutdownSelects, c01SyncCloseDoesNotDrain, c01FirstPassDefers},
+		Rules: []func(*Ctx){c01Emit, c01Partial, c01Markers, c01Route, c01ErrorSweep, c01Retry, c01Shutdown, c01BrokerShutdown, c01Sync, c01Loops, c16Flush, c02Flush, c18ResetOnHandBack, c01ErrLost, c01CloseDrains, c02RetryLevelWidth, c04Aligned, c01AsyncCloseNonBlocking, c18RetryCountKept, c01ShutdownSelects, c01SyncCloseDoesNotDrain, c01FirstPassDefers, c04Accounting},
 	})
 }
 
